@@ -145,6 +145,17 @@ def gen(tier, seed):
         if rnd.random() < 0.05 and d:
             ol = d - 1
         cases.append("b64decbuf\t%s\t%s" % (hx(bytes(text)), ol))
+    # ---- the streaming forms must agree with the one-shot form for every split into feeds: all two-feed splits of
+    #      texts longer than the stages' internal blocks (a carry of 1..3 characters followed by a long feed)
+    for n in (100, 150) if tier == "quick" else (100, 150, 1000):
+        data = bytes(rnd.getrandbits(8) for _ in range(n))
+        text = py_enc(data)
+        for cut in range(0, len(text) + 1):
+            cases.append("chain\tb64dec(malloc)\t%s\t%s" % (",".join(str(x) for x in (cut, len(text) - cut)), hx(text)))
+            dist["streaming decode: two-feed splits"] += 1
+        for cut in range(0, n + 1):
+            cases.append("chain\tb64enc(malloc)\t%s\t%s" % (",".join(str(x) for x in (cut, n - cut)), hx(data)))
+            dist["streaming encode: two-feed splits"] += 1
     # ---- the JSON-string, JSON-load and JSON-dump forms must agree with the raw-buffer form
     def jstr(b):
         # JSON text of a string holding exactly these bytes (all < 0x80 here; NUL and controls escaped)
@@ -258,6 +269,13 @@ def oracle(case, out):
         return ("crash:" + out[:80], "implementation crashed or sanitizer report: " + out)
     if f[0] in ("b64dec", "b64load", "b64enc", "b64dump"):
         return json_oracle(case, out)
+    if f[0] == "chain":
+        data = unhx(f[3])
+        want = py_dec(data) if f[1].startswith("b64dec") else py_enc(data)
+        o = out.split(" ")
+        if len(o) < 3 or o[1] != "T" or unhx(o[2]) != want:
+            return ("stream-differs-from-oneshot:" + f[1].split("(")[0], "the streaming %s fed as %s delivers something else than the one-shot codec" % (f[1].split("(")[0], f[2]))
+        return None
     cmd, data, ol = f[0], unhx(f[1]), f[2]
     o = out.split(" ")
     if cmd == "b64encbuf":
